@@ -14,7 +14,7 @@
    Source transcoding: CORRESPONDED ONLY (Expat's work). *)
 From Coq Require Import List NArith.
 From Wbxml Require Import Model.Codec Model.EncWbxml Proofs.EncWbxmlProofs Proofs.EncWbxmlC07.
-From Wbxml Require Model.EncXml Model.XmlRead Proofs.EncXmlProofs Proofs.EncXmlIndent.
+From Wbxml Require Model.EncXml Model.XmlRead Proofs.EncXmlProofs Proofs.EncXmlIndent Proofs.EncXmlC07.
 Import ListNotations.
 Local Open Scope N_scope.
 
@@ -79,34 +79,36 @@ Print Assumptions C07_wbxml_value_elements_spell_value.
 
 (* ---- XML half (statements over the XML generator model; qualified names: its tree type is its own) -------------- *)
 Module XmlHalf.
-  Import Wbxml.Model.EncXml Wbxml.Model.XmlRead Wbxml.Proofs.EncXmlProofs Wbxml.Proofs.EncXmlIndent.
+  Import Wbxml.Model.EncXml Wbxml.Model.XmlRead Wbxml.Proofs.EncXmlProofs Wbxml.Proofs.EncXmlIndent Wbxml.Proofs.EncXmlC07.
 
   (* compact and canonical generation of one tree are read back as the SAME document (white space kept; no TAB / LF / CR
-     in attribute values).  PARTIAL in the kinds of nodes (elements and text) *)
-  Theorem C07_xml_compact_equals_canonical_partial : forall l i1 i2 nm attrs ch out1 out2,
-    lang_ok l = true -> plain_attrs (Elt nm attrs ch) = true ->
-    node_ok l (opts_of_params Compact i1 true) proot None (Elt nm attrs ch) = true ->
-    node_ok l (opts_of_params Canonical i2 true) proot None (Elt nm attrs ch) = true ->
+     in attribute values) — for every node kind the tree builder makes (elements, attributes, xmlns, text, base64
+     content of binary-flagged elements, CDATA sections, embedded documents): node_ok_g states the property's
+     hypotheses (names are XML names, character data are XML characters, no duplicate attribute) *)
+  Theorem C07_xml_compact_equals_canonical : forall l i1 i2 nm attrs ch out1 out2,
+    lang_ok l = true -> plain_attrs_g (Elt nm attrs ch) = true ->
+    node_ok_g l (opts_of_params Compact i1 true) proot None (Elt nm attrs ch) = true ->
+    node_ok_g l (opts_of_params Canonical i2 true) proot None (Elt nm attrs ch) = true ->
     enc_xml l Compact i1 true [Elt nm attrs ch] = XOk out1 ->
     enc_xml l Canonical i2 true [Elt nm attrs ch] = XOk out2 ->
     forall fuel, (node_fuel (Elt nm attrs ch) + 2 <= fuel)%nat ->
       exists d, read_xml fuel out1 = ROk d /\ read_xml fuel out2 = ROk d.
-  Proof. exact c07_xml_compact_canonical. Qed.
-  Print Assumptions C07_xml_compact_equals_canonical_partial.
+  Proof. exact Wbxml.Proofs.EncXmlC07.c07_xml_compact_canonical_g. Qed.
+  Print Assumptions C07_xml_compact_equals_canonical.
 
   (* indented generation with ANY indent width (reduced mod 256 like the C's WB_UTINY, 8-bit depth counter) and compact
      generation: both accepted by the reader, same DOCTYPE, root elements equal modulo blank text between markup (nb:
-     elements with only character data are compared exactly).  PARTIAL in the kinds of nodes (elements and text) *)
-  Theorem C07_xml_indent_equals_compact_partial : forall l indent indent' keep_ws nm attrs ch out_i out_c,
+     elements with only character data are compared exactly) — same node kinds as above *)
+  Theorem C07_xml_indent_equals_compact : forall l indent indent' keep_ws nm attrs ch out_i out_c,
     lang_ok l = true ->
-    node_ok l (opts_of_params Compact indent' keep_ws) proot None (Elt nm attrs ch) = true ->
+    node_ok_g l (opts_of_params Compact indent' keep_ws) proot None (Elt nm attrs ch) = true ->
     enc_xml l Indent indent keep_ws [Elt nm attrs ch] = XOk out_i ->
     enc_xml l Compact indent' keep_ws [Elt nm attrs ch] = XOk out_c ->
     forall fuel, (node_fuel (Elt nm attrs ch) + 2 <= fuel)%nat ->
       exists ri rc,
         read_xml fuel out_i = ROk (doc_of l [ri]) /\ read_xml fuel out_c = ROk (doc_of l [rc]) /\ nb ri = nb rc.
   Proof. exact c07_xml_indent_compact. Qed.
-  Print Assumptions C07_xml_indent_equals_compact_partial.
+  Print Assumptions C07_xml_indent_equals_compact.
 End XmlHalf.
 
 (* the hypotheses are satisfiable *)
